@@ -454,6 +454,44 @@ def boundary_cases():
                 steps.append({"hosts": {str(hh): [["recv", 1, 64, "try"]] * 5 for hh in (0, 1, 2)}})
                 out.append({"cfg": {"nhosts": 3, "v6": v6, "cap": 16, "seed": 1, "min_ms": 0, "max_ms": 0,
                                     "random_order": False}, "steps": steps, "flavour": "udp-mcast-loop"})
+    out.extend(option_matrix())
+    return out
+
+
+def option_matrix():
+    """Deterministic socket-option x destination-class matrix: SO_BROADCAST on/off on the
+    sender, IP(V6)_MULTICAST_LOOP on/off on the local receiver and on the remote receiver
+    (the sender gets the opposite of the local receiver's flag when it is a separate
+    socket), crossed with broadcast / multicast / remote / same-host / 127.0.0.1 sends, the
+    sender being the local receiver itself or a separate socket; local + remote receivers
+    are drained, so the oracle counts every copy."""
+    out = []
+    classes = [("bcast", "bcast"), ("mcast", {"m": 1}), ("remote", {"h": 1}), ("same", {"h": 0}), ("lo", {"lo": 1})]
+    for v6 in (False, True):
+        for cname, dst in classes:
+            if v6 and cname == "bcast":
+                continue
+            for bc in ((False, True) if not v6 else (True,)):
+                for ml_local in (False, True):
+                    for ml_remote in (False, True):
+                        for self_send in (False, True):
+                            h0 = [["bind", 2, "any", 9000], ["join", 2, 1], ["set_mloop", 2, ml_local]]
+                            if self_send:
+                                sender = 2
+                                h0.append(["set_broadcast", 2, bc])
+                            else:
+                                sender = 1
+                                h0 += [["bind", 1, "any", 9001], ["set_broadcast", 1, bc], ["set_mloop", 1, not ml_local]]
+                            h1 = [["bind", 1, "any", 9000], ["join", 1, 1], ["set_mloop", 1, ml_remote]]
+                            sends = [["send", sender, dst, 9000, [7, 1, 3], "send_to"],
+                                     ["send", sender, dst, 9000, [7, 2], "try_send_to"]]
+                            drain = {"0": [["recv", 2, 64, "try"]] * 4, "1": [["recv", 1, 64, "try"]] * 4}
+                            if not self_send:
+                                drain["0"] = drain["0"] + [["recv", 1, 64, "try"]] * 2
+                            steps = [{"hosts": {"0": h0, "1": h1}}, {"hosts": {"0": sends}}, {"hosts": {}}, {"hosts": {}},
+                                     {"hosts": drain}]
+                            out.append({"cfg": {"nhosts": 2, "v6": v6, "cap": 16, "seed": 1, "min_ms": 0, "max_ms": 0,
+                                                "random_order": False}, "steps": steps, "flavour": "udp-option-matrix"})
     return out
 
 
